@@ -22,6 +22,23 @@ impl ExpirationQueue {
     pub fn reschedule_all_as_faults(&mut self, fault_expiration: ChainEpoch) -> (r: anyhow::Result<()>) { unimplemented!() }
     #[verifier::external_body]
     pub fn reschedule_recovered(&mut self, sectors: Vec<SectorOnChainInfo>, sector_size: SectorSize) -> (r: anyhow::Result<PowerPair>) { unimplemented!() }
+    /// (sector numbers, power, pledge, daily fee) of the sectors scheduled: SOME values, nothing of the partition touched
+    #[verifier::external_body]
+    pub fn add_active_sectors(&mut self, sectors: &[SectorOnChainInfo], sector_size: SectorSize) -> (r: anyhow::Result<(BitField, PowerPair, TokenAmount, TokenAmount)>) { unimplemented!() }
+    #[verifier::external_body]
+    pub fn replace_sectors(&mut self, old_sectors: &[SectorOnChainInfo], new_sectors: &[SectorOnChainInfo], sector_size: SectorSize) -> (r: anyhow::Result<(BitField, BitField, PowerPair, TokenAmount, TokenAmount)>) { unimplemented!() }
+    #[verifier::external_body]
+    pub fn remove_sectors(&mut self, policy: &Policy, sectors: &[SectorOnChainInfo], faults: &BitField, recovering: &BitField, sector_size: SectorSize) -> (r: anyhow::Result<(ExpirationSet, PowerPair)>) { unimplemented!() }
+    #[verifier::external_body]
+    pub fn pop_until(&mut self, until: ChainEpoch) -> (r: anyhow::Result<ExpirationSet>) { unimplemented!() }
+}
+pub struct Policy { pub vx_opaque: u8 }
+pub struct BitFieldQueue { pub amt: ExpAmt }
+impl BitFieldQueue {
+    #[verifier::external_body]
+    pub fn new<BS: Blockstore>(store: &BS, root: &Cid, quant: QuantSpec) -> (r: Result<BitFieldQueue, AnyhowError>) { unimplemented!() }
+    #[verifier::external_body]
+    pub fn add_to_queue(&mut self, raw_epoch: ChainEpoch, values: &BitField) -> (r: anyhow::Result<()>) { unimplemented!() }
 }
 #[verifier::external_body]
 pub fn select_sectors(sectors: &[SectorOnChainInfo], field: &BitField) -> (r: anyhow::Result<Vec<SectorOnChainInfo>>) { unimplemented!() }
